@@ -686,34 +686,8 @@ class CacheCheck(Check):
 
     def run_real(self, case):
         """Engine B: a child process runs a batch of free-running executions with real threads."""
-        import json as _json
-        import os as _os
-        import subprocess as _sp
-        from vf.core import PY, VERIF, REPO
-        res = CaseResult()
-        env = dict(_os.environ, PYTHONPATH=_os.pathsep.join([REPO, VERIF]), PYTHONHASHSEED='0')
-        try:
-            p = _sp.run([PY, '-m', 'vf.engine_b', 'cache', self.flavour, str(case['seed']), '25'], env=env, cwd=VERIF,
-                        capture_output=True, timeout=300)
-            out = _json.loads(p.stdout.decode().strip().splitlines()[-1])
-        except Exception as e:        # noqa
-            res.inconclusive = f'engine B child failed: {e!r}'
-            return res
-        res.stats.update(out['stats'])
-        res.stats['fam_real'] += 1
-        for v in out['violations']:
-            if v['sig'].startswith('B:'):
-                res.inconclusive = v['what']
-            else:
-                res.violations.append({'sig': v['sig'] + ':engineB' if False else v['sig'], 'what': v['what'] + ' [Engine B, real threads]',
-                                       'detail': v['detail']})
-        res.nontrivial = out['stats'].get('path_cross_loop_wait', 0) > 0
-        res.sig = f"real:{out['stats'].get('real_injected_yields', 0)}"
-        res.sample = {'engine': 'B', 'executions': out['stats'].get('real_executions'),
-                      'injected_yields': out['stats'].get('real_injected_yields')}
-        if res.nontrivial:
-            res.stats['nontrivial'] += 1
-        return res
+        from vf import engine_b
+        return engine_b.batch_case('cache', self.flavour, case['seed'], 25, 'path_cross_loop_wait')
 
     def run_case(self, case):
         if case['fam'] == 'real':
